@@ -163,19 +163,29 @@ def run(ctx):
         if any(e[0] in ('assign', 'invoke', 'method') for p in ps for e in p):
             ctx.report(Q4, fns[name], fns[name]['body'], name + ' disabled', 'a disabled transmitter still changes state')
     f = fns['GetMaxSkip']
-    r = Renderer(f, inline_locals=False)
+    from .. import summ, boolform
     ctx.inst(Q4)
-    first = f['body'].get('body', [None])[0]
-    if not (first and first.get('k') == 'if' and r.r(first['cond']) in ('(|| (! f:Teakra::Btdmp::transmit_enable) %s)' % EMPTY, '(|| %s (! f:Teakra::Btdmp::transmit_enable))' % EMPTY)
-            and r.s(first['then']) in ('{(return 18446744073709551615)}', '(return 18446744073709551615)')):
-        ctx.report(Q4, f, f['body'], 'GetMaxSkip guard', 'horizon is not Infinity exactly when disabled or empty')
+    SM = summ.summary(ctx, f, asserts='ignore')
+    rets = SM.returns()
+    INF = '18446744073709551615'
+    EN, EMPTYA = boolform.A('f:Teakra::Btdmp::transmit_enable'), boolform.A(EMPTY)
+    LT = boolform.A('(< f:Teakra::Btdmp::transmit_timer f:Teakra::Btdmp::transmit_period)')
+    idle = boolform.any_of(boolform.neg(EN), EMPTYA)
+    if boolform.equivalent(rets.get(INF, boolform.F_), idle) is not True:
+        ctx.report(Q4, f, f['body'], 'GetMaxSkip guard', 'horizon is not Infinity exactly when disabled or empty: Infinity when %s'
+                   % boolform.show(rets.get(INF, boolform.F_))[:200])
     ctx.inst(Q4)
-    t = r.s(f['body'])
-    H1 = '(+= l:ticks (- (- f:Teakra::Btdmp::transmit_period f:Teakra::Btdmp::transmit_timer) 1))'
-    H2 = '(+= l:ticks (* (- (/ (+ %s 1) 2) 1) f:Teakra::Btdmp::transmit_period))' % SIZE
-    H2b = '(+= l:ticks (* (- (/ (+ 1 %s) 2) 1) f:Teakra::Btdmp::transmit_period))' % SIZE
-    if H1 not in t or (H2 not in t and H2b not in t):
-        ctx.report(Q4, f, f['body'], 'GetMaxSkip horizon', 'horizon is not (period - timer - 1) + ((size + 1) / 2 - 1) * period: ' + t[:400])
+
+    def fl(op, *args):
+        return '(%s %s)' % (op, ' '.join(sorted(args)))
+    PER, TIM = 'f:Teakra::Btdmp::transmit_period', 'f:Teakra::Btdmp::transmit_timer'
+    REST = '(- (- %s %s) 1)' % (PER, TIM)
+    FRAMES = fl('*', '(- (/ %s 2) 1)' % fl('+', SIZE, '1'), PER)
+    want = {fl('+', REST, FRAMES): boolform.all_of(boolform.neg(idle), LT), FRAMES: boolform.all_of(boolform.neg(idle), boolform.neg(LT))}
+    others = {k: v for k, v in rets.items() if k != INF}
+    if set(others) != set(want) or any(boolform.equivalent(others[k], want[k]) is not True for k in want):
+        ctx.report(Q4, f, f['body'], 'GetMaxSkip horizon', 'horizon is not (period - timer - 1 if timer < period) + ((size + 1) / 2 - 1) * period: %s'
+                   % {k[:160]: boolform.show(v)[:120] for k, v in others.items()})
     ctx.sample({'function': 'Btdmp::Skip', 'after pop': ['ASSERT(!queue.empty())', 'transmit_full = false']})
     ctx.assumptions += ['no loss / duplication / reordering over all interleavings and frame-period exactness are history properties with '
                         'timer arithmetic and are not decided']
